@@ -112,7 +112,10 @@ Expect ==
                          ELSE [ok |-> TRUE, le |-> SmallDec(Slice(inp, 1, 3), TRUE, FALSE),
                                be |-> SmallDec(Slice(inp, 1, 3), FALSE, FALSE)]
     [] kind = "cstr" -> [p \in StrPos |-> CStrAt(inp, p)]
-    [] kind = "initlen" -> [le |-> InitialLength(inp, TRUE), be |-> InitialLength(inp, FALSE)]
+    [] kind = "initlen" -> [le |-> [v2 |-> InitialLengthFor(inp, TRUE, 2), v3 |-> InitialLengthFor(inp, TRUE, 3),
+                                    v4 |-> InitialLengthFor(inp, TRUE, 4), v5 |-> InitialLengthFor(inp, TRUE, 5)],
+                            be |-> [v2 |-> InitialLengthFor(inp, FALSE, 2), v3 |-> InitialLengthFor(inp, FALSE, 3),
+                                    v4 |-> InitialLengthFor(inp, FALSE, 4), v5 |-> InitialLengthFor(inp, FALSE, 5)]]
     [] kind = "arr" -> [u8 |-> ArrU8, u16le |-> ArrU16(TRUE), u16be |-> ArrU16(FALSE), u32le |-> ArrU32(TRUE), u32be |-> ArrU32(FALSE),
                         uleb |-> ArrUleb, until0 |-> ArrUntil0]
 
